@@ -14,6 +14,7 @@ import collections
 import copy as _copy
 import dataclasses
 import functools
+import gc
 import uuid
 
 import gtirb
@@ -23,21 +24,22 @@ from gtirb_rewriting.dwarf import cfi_eval as CE
 from gtirb_rewriting.dwarf.cfi_eval import CFIStateError, evaluate_cfi_directives
 
 from .. import cfimodel
-from ..core import TaskResult
+from ..core import TaskResult, h8
 
 PROPERTY = "C15"
 LEVEL = "model_checking"
 STATES_ARE_DISTINCT_CASES = True
 RULE = (
-    "breadth-first search from the empty cfiDirectives table over histories of events (39 per ABI: every "
+    "breadth-first search from the empty cfiDirectives table over histories of events (35 per ABI: every "
     "directive evaluate_cfi_directives supports with operands from registers {3,6,7} / offsets {8,16,-8}, six "
     ".cfi_escape byte strings, personality/lsda with symbol | DW_EH_PE_omit | missing symbol, return_column, "
     "'next offset', 'next block'); every history is rebuilt as a fresh module and evaluated by the real code, "
     "twice when it has more than one location (table filled and blocks passed in address order / in reverse "
     "order); a case is one transition; distinct = distinct (ABI, canonical reference state) reached, canonical "
     "state = in/out of procedure, CFA rule, register rules, remember stack, initial row (or 'CIE prefix still "
-    "open'), personality, lsda, return column, whether the current location already has directives; expected-"
-    "error states are terminal and count as one state per (ABI, error class)"
+    "open'), personality, lsda, return column, whether the current location already has directives, whether the "
+    "current block has directives at an earlier offset; expected-error states are terminal and count as one "
+    "state per (ABI, error class); states whose incoming transition is a discrepancy are not expanded"
 )
 ASSUMPTIONS = [
     "ABIs: X64-ELF, ARM64-ELF, MIPS32-ELF (module byte_order=big, 4-byte pointers). The PE ABIs define no DWARF "
@@ -65,16 +67,72 @@ ASSUMPTIONS = [
     "offset changes. Either CFIStateError or ValueError is accepted for every class of ill-formed input.",
     "'At the same step' is observable as the number of states yielded before the exception.",
     "Equal canonical state is taken to imply equal futures up to a shift of block/offset numbers (the evaluator "
-    "only sorts by them). All blocks live in one byte interval, 8 bytes each with 2-byte gaps.",
+    "only sorts by them). All blocks live in one byte interval, 8 bytes each with 2-byte gaps; all blocks of the "
+    "module are passed to evaluate_cfi_directives.",
+    "The three ABIs differ only in the default return column and in how escape operands are decoded (both "
+    "reachable within two events), so ARM64-ELF and MIPS32-ELF are searched one event less deep than X64-ELF. "
+    "MIPS32 is explored as a big-endian module only (the library assembles MIPS32 for the big-endian triple "
+    "'mips-pc-linux').",
+    "Work distribution: the reference interpreter alone lays out the state graph down to "
+    "planned_events_after_startproc+1 events (which history reaches which canonical state first); the tasks then "
+    "run every transition out of every planned state on the real code and search on below the deepest planned "
+    "states with task-local deduplication. A planned state is expanded only if its own history replays without "
+    "discrepancy on the real code.",
     "Independence of copies is checked observably (copy at yield time, compare with the snapshot after the "
     "generator finished or raised), not by object identity of the parts.",
 ]
 BOUNDS = {
-    "quick": {"events_after_startproc": 5, "alphabet": 39, "abis": 3, "presentations": 2},
-    "thorough": {"events_after_startproc": 7, "alphabet": 39, "abis": 3, "presentations": 2},
+    # events_after_startproc: history length bound per ABI (not counting the leading .cfi_startproc that every
+    # non-trivial history needs); planned_events_after_startproc: depth to which the reference alone lays out the
+    # state graph so that the transitions can be dealt to the tasks without duplicates
+    "quick": {"events_after_startproc": {"X64-ELF": 5, "ARM64-ELF": 4, "MIPS32-ELF": 4},
+              "planned_events_after_startproc": 4, "alphabet": 35,
+              "presentations": 2, "tasks_per_abi": 64},
+    "thorough": {"events_after_startproc": {"X64-ELF": 7, "ARM64-ELF": 6, "MIPS32-ELF": 6},
+                 "planned_events_after_startproc": 5, "alphabet": 35, "presentations": 2, "tasks_per_abi": 256},
 }
-CAP_S = {"quick": 150, "thorough": 2400}
-PREFIX_DEPTH = 3  # .cfi_startproc + two events: the task split
+CAP_S = {"quick": 300, "thorough": 3000}
+
+# Discrepancies of the unchanged tree (/repo @ 09407ae) with the verdict of whoever wrote this check and the
+# proposed known_findings.json matcher.  Documentation only - nothing reads this at run time.
+PROPOSED_KNOWN_FINDINGS = [
+    {
+        "id": "F5",
+        "what": ".cfi_restore r when r has neither a current nor an initial rule raises KeyError",
+        "minimal_input": "any ABI: .cfi_startproc; .cfi_restore 3 (same or later location)",
+        "expected": "DW_CFA_restore goes back to the rule of the CIE's initial instructions; there is none, so the "
+        "register returns to the default (no entry): state unchanged, yielded normally, no exception",
+        "observed": "KeyError: 3 escapes from the generator",
+        "where": "src/gtirb_rewriting/dwarf/cfi_eval.py:345  state.current.registers.pop(register)",
+        "fix": "state.current.registers.pop(register, None)",
+        "match": {"kind": "cfi-eval-wrong-exception", "r_exc": "KeyError", "r_directive": ".cfi_restore"},
+    },
+    {
+        "id": "NEW-A",
+        "what": "default DWARF return-address column is 32 for ARM64-ELF and MIPS32-ELF (psABI / gas / llvm-mc: 30 and 31)",
+        "minimal_input": "ARM64 or MIPS32 ELF module with just .cfi_startproc",
+        "expected": "return_column 30 (AArch64 x30/LR) / 31 (MIPS $ra); llvm-mc -filetype=obj of an empty procedure + "
+        "llvm-dwarfdump --eh-frame prints 'Return address column: 30' / '31' (x86_64: 16, which the library has right)",
+        "observed": "ProcedureState.return_column == 32 on both",
+        "where": "src/gtirb_rewriting/abi.py:752-753 and 883-884 (default_dwarf_eh_return_column)",
+        "fix": "return 30 / return 31",
+        "match": {"kind": "cfi-eval-default-return-column", "r_abi": ["ARM64-ELF", "MIPS32-ELF"]},
+    },
+    {
+        "id": "NEW-B",
+        "what": "escaped DWARF expressions of a (big-endian) MIPS32 module are decoded little-endian",
+        "minimal_input": "MIPS32-ELF, byte_order=Big: .cfi_startproc; .cfi_escape 0x00,0x16,0x06,0x03,0x0a,0x12,0x34 "
+        "(nop; val_expression r6 {DW_OP_const2u 0x1234})",
+        "expected": "val_expression((const2u 0x1234))",
+        "observed": "OpConst2U(0x3412), silently",
+        "where": "src/gtirb_rewriting/abi.py:260 ABI.byteorder() is 'little' for every ABI (no override in _MIPS32_ELF) and "
+        "is the byte order cfi_eval.py:381 decodes escapes with; the library's own MIPS32 is big-endian "
+        "(utils._target_triple -> 'mips-pc-linux', Assembler emits 24081234 for addiu $t0,$zero,0x1234)",
+        "fix": "_MIPS32_ELF.byteorder() -> 'big' (or derive it from module.byte_order)",
+        "match": {"kind": "cfi-eval-state-mismatch", "r_abi": "MIPS32-ELF", "r_directive": ".cfi_escape",
+                  "r_detail": "byte-swapped-operand"},
+    },
+]
 
 ABIS = tuple(cfimodel.ABIS)
 
@@ -183,29 +241,36 @@ def _locations(events):
     return locs, b + 1
 
 
+# node UUIDs: fixed values instead of uuid4() (a third of the cost of building a module);
+# every world has its own IR, so reusing them across worlds is harmless
+_UUIDS = [uuid.UUID(int=0xC15 << 64 | k) for k in range(64)]
+
+
 class World:
-    """A fresh module with n code blocks and one symbol."""
+    """A fresh IR + module with n code blocks and one symbol."""
 
     def __init__(self, abi, nblocks):
         cfg = cfimodel.ABIS[abi]
-        self.ir = gtirb.IR()
+        U = _UUIDS
+        self.ir = gtirb.IR(uuid=U[0])
         self.m = gtirb.Module(
+            uuid=U[1],
             name="m",
             isa=getattr(gtirb.Module.ISA, cfg["isa"]),
             file_format=getattr(gtirb.Module.FileFormat, cfg["format"]),
             byte_order=_BYTE_ORDER[cfg["byte_order"]],
         )
         self.m.ir = self.ir
-        sec = gtirb.Section(name=".text")
+        sec = gtirb.Section(uuid=U[2], name=".text")
         sec.module = self.m
-        bi = gtirb.ByteInterval(address=0x1000, contents=bytes(10 * nblocks))
+        bi = gtirb.ByteInterval(uuid=U[3], address=0x1000, contents=bytes(10 * nblocks))
         bi.section = sec
         self.blocks = []
         for k in range(nblocks):
-            blk = gtirb.CodeBlock(offset=10 * k, size=8)
+            blk = gtirb.CodeBlock(uuid=U[6 + k], offset=10 * k, size=8)
             blk.byte_interval = bi
             self.blocks.append(blk)
-        self.sym = gtirb.Symbol("pers", payload=gtirb.ProxyBlock())
+        self.sym = gtirb.Symbol("pers", uuid=U[4], payload=gtirb.ProxyBlock(uuid=U[5]))
         self.sym.module = self.m
         self.index = {id(blk): k for k, blk in enumerate(self.blocks)}
 
@@ -223,12 +288,17 @@ class World:
 _EXPR_OPCODE = {"OpAddr": 0x03, "OpDeref": 0x06, "OpConst1U": 0x08, "OpConst2U": 0x0A, "OpPlus": 0x22, "OpPlusUConst": 0x23}
 
 
+_FIELD_NAMES = {}
+
+
 def _conv_expr(ops):
     out = []
     for op in ops:
-        name = type(op).__name__
-        vals = tuple(getattr(op, f.name) for f in dataclasses.fields(op))
-        out.append((_EXPR_OPCODE.get(name, name),) + vals)
+        t = type(op)
+        names = _FIELD_NAMES.get(t)
+        if names is None:
+            names = _FIELD_NAMES[t] = tuple(f.name for f in dataclasses.fields(op))
+        out.append((_EXPR_OPCODE.get(t.__name__, t.__name__),) + tuple(getattr(op, n) for n in names))
     return tuple(out)
 
 
@@ -292,11 +362,9 @@ def conv_state(st, world):
     }
 
 
-def run_real(abi, events, reverse):
-    """Real evaluation on a fresh world.  Returns (yields, exc, copy_diffs):
+def run_real(w, locs, reverse):
+    """Real evaluation on the world `w` with a freshly built table.  Returns (yields, exc, copy_diffs):
     yields [(block index, offset, converted state)], exc None | (type name, message, is_clean)."""
-    locs, nblocks = _locations(events)
-    w = World(abi, nblocks)
     w.set_table(locs, reverse)
     blocks = list(reversed(w.blocks)) if reverse else list(w.blocks)
     yields = []
@@ -333,12 +401,28 @@ def _first_diff(a, b):
     return None
 
 
+def _leaf_diff(a, b):
+    """Classify the first difference between two plain structures: 'byte-swapped-operand'
+    (an integer that equals the expected one with its 2/4/8 bytes reversed), 'value', 'shape'."""
+    if isinstance(a, tuple) and isinstance(b, tuple) and len(a) == len(b):
+        for x, y in zip(a, b):
+            if x != y:
+                return _leaf_diff(x, y)
+        return "none"
+    if isinstance(a, int) and isinstance(b, int) and not isinstance(a, bool) and not isinstance(b, bool):
+        for w in (2, 4, 8):
+            if 0 <= b < 1 << (8 * w) and 0 <= a < 1 << (8 * w) and int.from_bytes(b.to_bytes(w, "big"), "little") == a:
+                return "byte-swapped-operand"
+        return "value"
+    return "shape"
+
+
 # ------------------------------------------------------------------ comparison
 @functools.lru_cache(maxsize=None)
 def observed_default_column(abi):
     """What the real evaluator reports as return column for a lone .cfi_startproc
     (None if that does not even work)."""
-    y, exc, _ = run_real(abi, (alphabet(abi)[0],), False)
+    y, exc, _ = run_real(World(abi, 1), [(0, 0, [alphabet(abi)[0]])], False)
     if exc or len(y) != 1 or not isinstance(y[0][2], dict):
         return None
     return y[0][2].get("return_column")
@@ -386,8 +470,9 @@ def compare(abi, events, ref, real, presentation):
         es = _expect_state(abi, es)
         if gs != es:
             fld = _first_diff(gs, es)
-            diffs.append(D("cfi-eval-state-mismatch", r_field=fld, r_directive=last, r_abi=abi, yield_index=k,
-                           got=_j(gs if fld == "in_procedure" else gs[fld]), expected=_j(es if fld == "in_procedure" else es[fld])))
+            g, e = (gs, es) if fld == "in_procedure" else (gs[fld], es[fld])
+            diffs.append(D("cfi-eval-state-mismatch", r_field=fld, r_detail=_leaf_diff(g, e) if fld != "in_procedure" else "shape",
+                           r_directive=last, r_abi=abi, yield_index=k, got=_j(g), expected=_j(e)))
             break
     diffs.extend(copy_diffs)
     for d in diffs:
@@ -395,15 +480,16 @@ def compare(abi, events, ref, real, presentation):
     return diffs
 
 
-def check_history(abi, events):
-    """Run one history on the reference and on the real code (both presentations).
-    Returns (diffs, ref)."""
-    ref = cfimodel.run(abi, _ref_events(events))
-    diffs = compare(abi, events, ref, run_real(abi, events, False), "address-order")
+def check_history(abi, events, ref):
+    """Build a fresh module for this history, run the real code on it (table filled and blocks
+    passed in address order; with more than one location also a second table filled in reverse
+    order and the blocks passed in reverse) and compare with the reference result `ref`."""
     locs, nblocks = _locations(events)
+    w = World(abi, nblocks)
+    diffs = compare(abi, events, ref, run_real(w, locs, False), "address-order")
     if not diffs and len(locs) > 1:
-        diffs = compare(abi, events, ref, run_real(abi, events, True), "reversed")
-    return diffs, ref
+        diffs = compare(abi, events, ref, run_real(w, locs, True), "reversed")
+    return diffs
 
 
 def probe_default_column(abi, res):
@@ -421,13 +507,6 @@ def _case(abi, events):
     return {"abi": abi, "history": [[e[0], e[1], list(e[2]), e[3]] if e[0] == "d" else [e[0]] for e in events]}
 
 
-def _canon_of(ref):
-    _, err, mach = ref
-    if err is not None:
-        return ("ERR", err[1])
-    return mach.canon()
-
-
 def _outcome(ref):
     y, err, _ = ref
     if err is not None:
@@ -435,83 +514,100 @@ def _outcome(ref):
     return "ok:%d-yields:%s" % (len(y), "in" if y and y[-1][2] is not None else "out")
 
 
-def explore(abi, roots, seen, max_depth, res, stop_depth=None):
-    """BFS over extensions of the root histories; every transition runs on the real code.
-    `seen` holds canonical states that are expanded elsewhere (or already).  States first
-    reached at depth `stop_depth` are returned, not expanded (they become tasks)."""
+def _ref_run(abi, events):
+    r = cfimodel.Run(abi)
+    for e in _ref_events(events):
+        r.step(e)
+    return r
+
+
+def explore(abi, roots, seen, max_depth, res):
+    """BFS over the extensions of the root histories, at most max_depth events in total;
+    every transition runs on the real code.  `seen` holds the canonical states that are
+    expanded elsewhere (or already); it is updated in place."""
     A = alphabet(abi)
-    frontier = collections.deque(roots)
-    handed_over = []
-    local_states = 0
+    RA = _ref_events(A)
+    frontier = collections.deque((h, _ref_run(abi, h)) for h in roots)
     while frontier:
-        hist = frontier.popleft()
-        for ev in A:
+        hist, run = frontier.popleft()
+        for ev, rev in zip(A, RA):
             nh = hist + (ev,)
-            diffs, ref = check_history(abi, nh)
+            r2 = run.clone()
+            r2.step(rev)
+            ref = r2.result()
+            diffs = check_history(abi, nh, ref)
             res.transitions += 1
             res.traces += 1
-            k = _canon_of(ref)
-            res.case((abi, k), nontrivial=True, outcome=_outcome(ref) if not diffs else "DISCREPANCY")
+            k = r2.canon()
+            new = k not in seen
+            res.case((abi, k), nontrivial=new and not diffs, outcome=_outcome(ref) if not diffs else "DISCREPANCY")
             if diffs:
                 res.bad(_case(abi, nh), diffs)
-                continue
-            if k in seen:
+                continue  # a state the real code does not reach correctly is not expanded
+            if not new:
                 continue
             seen.add(k)
-            local_states += 1
+            res.states += 1
             if k[0] == "ERR":
                 continue  # terminal
-            if len(nh) <= 4:
-                res.sample(_case(abi, nh), cap=2)
-            if stop_depth is not None and len(nh) >= stop_depth:
-                handed_over.append(nh)
-                continue
+            res.sample(_case(abi, nh), cap=2)
             if len(nh) >= max_depth:
                 continue  # reached and checked, not expanded: the bound
-            frontier.append(nh)
-    res.states += local_states
-    return handed_over
+            frontier.append((nh, r2))
 
 
 @functools.lru_cache(maxsize=None)
-def plan(abi, prefix_depth):
-    """Reference-only BFS to the task-split depth.  Returns (shallow, roots): canonical
-    states first reached at depth <= prefix_depth, and for those first reached exactly at
-    prefix_depth the history reaching them (in BFS order).  The real code is run on all of
-    these transitions by the 'prefix' task."""
+def plan(abi, plan_depth):
+    """Reference-only BFS from the empty table to `plan_depth` events.  Returns
+    (seen, nodes): the canonical states first reached at depth <= plan_depth and, in BFS
+    order, the first history of every such state that is not an error state.  The plan only
+    distributes the work: the tasks run *every* transition out of *every* node on the real
+    code (and go on searching below the nodes of depth == plan_depth on their own)."""
     A = alphabet(abi)
-    seen = {cfimodel.Machine(abi).canon()}
-    frontier = collections.deque([()])
-    roots = []
+    RA = _ref_events(A)
+    root = cfimodel.Run(abi)
+    seen = {root.canon()}
+    nodes = [()]
+    frontier = collections.deque([((), root)])
     while frontier:
-        hist = frontier.popleft()
-        for ev in A:
-            nh = hist + (ev,)
-            ref = cfimodel.run(abi, _ref_events(nh))
-            k = _canon_of(ref)
+        hist, run = frontier.popleft()
+        for ev, rev in zip(A, RA):
+            r2 = run.clone()
+            r2.step(rev)
+            k = r2.canon()
             if k in seen:
                 continue
             seen.add(k)
             if k[0] == "ERR":
                 continue
-            if len(nh) >= prefix_depth:
-                roots.append(nh)
-            else:
-                frontier.append(nh)
-    return frozenset(seen), tuple(roots)
+            nh = hist + (ev,)
+            nodes.append(nh)
+            if len(nh) < plan_depth:
+                frontier.append((nh, r2))
+    return seen, tuple(nodes)
 
 
-def _depth(tier):
-    return 1 + BOUNDS[tier]["events_after_startproc"]
+def _depth(tier, abi):
+    return 1 + BOUNDS[tier]["events_after_startproc"][abi]
+
+
+def _plan_depth(tier, abi):
+    return min(_depth(tier, abi) - 1, 1 + BOUNDS[tier]["planned_events_after_startproc"])
 
 
 def tasks(tier):
+    """One 'probe' task per ABI plus chunks of planned nodes (consecutive in BFS order, so
+    that siblings - whose successors coincide most often - stay in one task)."""
     out = []
+    per_abi = BOUNDS[tier]["tasks_per_abi"]
     for abi in ABIS:
-        out.append({"abi": abi, "kind": "prefix", "depth": _depth(tier)})
-        _, roots = plan(abi, PREFIX_DEPTH)
-        for i in range(len(roots)):
-            out.append({"abi": abi, "kind": "sub", "root": i, "depth": _depth(tier)})
+        out.append({"abi": abi, "kind": "probe"})
+        _, nodes = plan(abi, _plan_depth(tier, abi))  # computed once here, inherited by the forked workers
+        n = len(nodes)
+        chunk = max(1, -(-n // per_abi))
+        for lo in range(0, n, chunk):
+            out.append({"abi": abi, "kind": "nodes", "lo": lo, "hi": min(n, lo + chunk), "tier": tier})
+    gc.freeze()  # keep the collector of the forked workers off the (shared, read-only) plans
     return out
 
 
@@ -522,23 +618,32 @@ def task_group(task):
 def run_task(task):
     res = TaskResult()
     abi = task["abi"]
-    shallow, roots = plan(abi, PREFIX_DEPTH)
-    if task["kind"] == "prefix":
+    if task["kind"] == "probe":
         probe_default_column(abi, res)
-        seen = {cfimodel.Machine(abi).canon()}
-        res.states += 1
-        res.case((abi, cfimodel.Machine(abi).canon()), outcome="empty-table")
-        handed = explore(abi, [()], seen, task["depth"], res, stop_depth=PREFIX_DEPTH)
-        # the plan (reference only) and the real exploration must agree on the task roots,
-        # unless a discrepancy cut the real exploration short
-        if not res.discrepancies and tuple(handed) != roots:
-            raise RuntimeError("task plan and prefix exploration disagree for %s" % abi)
         res.notes["alphabet:" + abi] = len(alphabet(abi))
-        res.notes["tasks:" + abi] = len(roots)
-    else:
-        root = roots[task["root"]]
-        seen = set(shallow)
-        explore(abi, [root], seen, task["depth"], res)
+        return res
+    tier = task["tier"]
+    shallow, nodes = plan(abi, _plan_depth(tier, abi))
+    res.notes["planned_nodes:" + abi] = len(nodes)
+    seen = set(shallow)
+    if task["lo"] == 0:
+        # the planned error states (terminal) are counted here, once
+        for k in sorted(k for k in shallow if k[0] == "ERR"):
+            res.states += 1
+            res.nontrivial.add(h8((abi, k)))
+    for hist in nodes[task["lo"] : task["hi"]]:
+        run = _ref_run(abi, hist)
+        if hist:
+            # the transition into this node is checked (and reported) by the task owning its
+            # parent; here it only decides whether the node is expanded at all
+            if check_history(abi, hist, run.result()):
+                res.extra["nodes_not_expanded_because_unreachable_on_real_code"] += 1
+                continue
+        res.states += 1
+        res.nontrivial.add(h8((abi, run.canon())))
+        if len(hist) >= 2:
+            res.sample(_case(abi, hist), cap=1)
+        explore(abi, [hist], seen, _depth(tier, abi), res)
     return res
 
 
@@ -549,5 +654,4 @@ def replay(case):
         probe_default_column(abi, res)
         return [d for r in res.discrepancies for d in r["diffs"]]
     events = tuple(("d", e[1], tuple(e[2]), e[3]) if e[0] == "d" else (e[0],) for e in case["history"])
-    diffs, _ = check_history(abi, events)
-    return diffs
+    return check_history(abi, events, _ref_run(abi, events).result())
